@@ -1,6 +1,8 @@
 """C13 — memory accounting is exact and the limit is never exceeded by admitted writes.
 Sequential part: exact equality after every call on every tier, incl. after recovery.
 The instantaneous bound under racing writers is decided by the schedule engine (see c07)."""
+import json
+import os
 import random
 
 import vcommon as v
@@ -40,6 +42,22 @@ def run(tier, seed):
                                  "--rounds", "20", "--lim", str(rng.choice([400, 600, 900]))])
             for i in range(4 if tier == "quick" else 24)]
     collect(PROP, ce.run_free(fxv, rd, free), rd, ["MemBound"], viol, cst)
+    # creators and deleters against a limit that admits half of them, unrecorded (peak usage only)
+    storms = []
+    for i in range(3 if tier == "quick" else 12):
+        t = os.path.join(rd, "limitstorm_%d.ndjson" % i)
+        rc, so, se = v.run_cmd([fxv, "conc", "--mode", "limitstorm", "--out", t, "--seed", str(rng.randrange(1 << 30)),
+                                "--threads", str([8, 6, 12][i % 3]), "--millis", "1500" if tier == "quick" else "4000"], timeout=120)
+        info = {}
+        for line in so.splitlines():
+            try:
+                info.update(json.loads(line))
+            except Exception:
+                pass
+        if rc == 0 and info.get("admitted", 0) < 1000:
+            raise v.ToolError("vacuity: limit storm admitted only %s writes" % info.get("admitted"))
+        storms.append({"trace": t, "rc": rc, "info": info, "stderr": se[-1500:], "tag": "limitstorm_%d" % i})
+    collect(PROP, storms, rd, ["MemBound"], viol, cst)
     # recovery part: stores obtained by the real recovery from crash images (two generations of a key
     # with values of different lengths on the device, torn batches, retired extents)
     import crashengine as cre
